@@ -4,6 +4,15 @@ set_option linter.unusedSimpArgs false
 namespace LocalFS
 
 /-! ## compareFile -/
+theorem prefixDiffers_eq : ∀ (n : Nat) (a b : Bytes), prefixDiffers n a b = (a.take n != b.take n)
+  | 0, _, _ => by simp [prefixDiffers]
+  | _ + 1, [], [] => by simp [prefixDiffers]
+  | n + 1, x :: a, y :: b => by
+    simp only [prefixDiffers, List.take_succ_cons, prefixDiffers_eq n a b]
+    by_cases h : x = y <;> simp [h, bne]
+  | _ + 1, [], _ :: _ => by simp [prefixDiffers, bne]
+  | _ + 1, _ :: _, [] => by simp [prefixDiffers, bne]
+
 theorem compareLoop_zero_cap (fuel : Nat) (file data : Bytes) :
     compareLoop 0 fuel file data = ([], none) := by
   induction fuel with
@@ -24,7 +33,7 @@ theorem compareLoop_sound (cap : Nat) : ∀ (fuel : Nat) (file data : Bytes) (rd
         simp [compareLoop, hc] at h
         exact h.2.symm
       | cons a l =>
-        simp only [compareLoop, hc, if_false, List.isEmpty_cons, Bool.false_eq_true] at h
+        simp only [compareLoop, hc, if_false, List.isEmpty_cons, Bool.false_eq_true, prefixDiffers_eq] at h
         split at h
         · simp at h
         · rename_i hcond
@@ -47,7 +56,7 @@ theorem compareLoop_complete (cap : Nat) (hc : 0 < cap) : ∀ (fuel : Nat) (file
     | nil =>
       cases data <;> simp [compareLoop, hc0]
     | cons a l =>
-      simp only [compareLoop, hc0, if_false, List.isEmpty_cons, Bool.false_eq_true]
+      simp only [compareLoop, hc0, if_false, List.isEmpty_cons, Bool.false_eq_true, prefixDiffers_eq]
       split
       · rename_i hcond
         simp only [gt_iff_lt, Bool.or_eq_true, decide_eq_true_eq, bne_iff_ne, ne_eq] at hcond
